@@ -1,6 +1,7 @@
 package engine
 
 import (
+	"bytes"
 	"crypto/sha256"
 	"encoding/binary"
 	"fmt"
@@ -115,6 +116,12 @@ func NewRepDriver(tier string) *RepDriver {
 		}
 	}
 	d.ops = append(d.ops, repOp{1, 0, "va", "S"})
+	// two more 33-byte peers, crafted so that the id of (epoch 0, peer 2) is a proper byte-prefix of the id of
+	// (epoch 2, peer 3): 02||Q and Q||07 with Q starting with 03 - both look like compressed keys
+	q := append([]byte{0x03}, bytes.Repeat([]byte{0x5a}, 31)...)
+	d.peers = append(d.peers, append([]byte{0x02}, q...), append(append([]byte{}, q...), 0x07))
+	d.eps = append(append([]int64{}, d.eps...), 2)
+	d.ops = append(d.ops, repOp{0, 2, "vc", "C"}, repOp{2, 3, "vd", "C"}, repOp{2, 2, "ve", "C"})
 	return d
 }
 func (d *RepDriver) Build() *World {
@@ -172,20 +179,48 @@ func (d *RepDriver) Step(x *Exec, n *Node, i int) StepResult {
 				wantIDs = append(wantIDs, fmt.Sprint(NX(id)))
 			}
 			for _, r := range []Obs{w.Read(nn.L, nn.H, nn.TS, h, "get", e, d.peers[p]), w.Read(nn.L, nn.H, nn.TS, h, "getByID", id)} {
-				if !r.Halt || !sameList(r.Ret0(), want) {
+				if r.Halt && sameList(r.Ret0(), want) {
+					continue
+				}
+				// the one surplus that is explained (and listed as a finding): the values stored under ids of which
+				// this id is a proper byte-prefix (ids are epoch bytes and peer bytes without framing)
+				var also []string
+				for _, e2 := range d.eps {
+					for p2 := range d.peers {
+						id2 := append(leInt(e2), d.peers[p2]...)
+						if len(id2) > len(id) && bytes.HasPrefix(id2, id) {
+							also = append(also, nm.m[fmt.Sprintf("%d/%d", e2, p2)]...)
+						}
+					}
+				}
+				got := strList(r.Ret0())
+				exp := append(append([]string{}, vals...), also...)
+				var expS []string
+				for _, v := range exp {
+					expS = append(expS, fmt.Sprint(NXs(v)))
+				}
+				sort.Strings(got)
+				sort.Strings(expS)
+				if !r.Halt || len(also) == 0 || fmt.Sprint(got) != fmt.Sprint(expS) {
 					where["epoch"], where["method"] = e, "get"
 					return viol("store-wrong", fmt.Sprintf("get(epoch %d, peer %d) = %v, put: %v", e, p, r.Stack, vals))
 				}
+				soft = append(soft, Viol("get-superset", fmt.Sprintf("reputation.get(%d, peer %d) / getByID also returns the values stored under an id that extends this one", e, p),
+					map[string]any{"contract": "reputation", "method": "get", "relation": "id is a proper byte-prefix of id'"}))
 			}
 		}
 		r := w.Read(nn.L, nn.H, nn.TS, h, "listByEpoch", e)
 		missing, unexpl, expl := supersetExplained(strList(r.Ret0()), wantIDs, func(extra string) bool {
+			// explained: a stored id of another epoch that starts with LE(e) (ids are LE(epoch)||peer without framing:
+			// this covers epochs whose encoding extends LE(e) and, for epoch 0, peers whose first bytes are LE(e))
 			for _, e2 := range d.eps {
-				if properPrefixEpoch(e, e2) {
-					for p := range d.peers {
-						if extra == fmt.Sprint(NX(append(leInt(e2), d.peers[p]...))) && len(nm.m[fmt.Sprintf("%d/%d", e2, p)]) > 0 {
-							return true
-						}
+				if e2 == e {
+					continue
+				}
+				for p := range d.peers {
+					id2 := append(leInt(e2), d.peers[p]...)
+					if bytes.HasPrefix(id2, leInt(e)) && extra == fmt.Sprint(NX(id2)) && len(nm.m[fmt.Sprintf("%d/%d", e2, p)]) > 0 {
+						return true
 					}
 				}
 			}
